@@ -40,6 +40,7 @@ func checkC13(c *Ctx, r *Report) {
 		r.Fail("anchor", "package %s not found", pkg)
 		return
 	}
+	borrowRule(c, r, "C13-borrow", "transport/ax25/agwpe")
 	frameT, _ := p.Types.Scope().Lookup("frame").(*types.TypeName)
 	headerT, _ := p.Types.Scope().Lookup("header").(*types.TypeName)
 	if frameT == nil || headerT == nil {
